@@ -1623,6 +1623,50 @@ func Exec(run *Run, ar *arena.Arena, va *arena.Vars, g *Globals, sites *SiteTabl
 
 	concurrent := len(run.Tasks) > 1 || run.Build != "plain" || len(run.Switches) > 0
 
+	// When the library starts goroutines of its own, every sequential section
+	// that calls it (setup, single-task runs, the solo pre-pass) also runs under
+	// a scheduler (serial policy: a goroutine the library starts runs when its
+	// parent blocks or finishes), so that those goroutines are never outside the
+	// simulator's control and a sequential section is a deterministic execution.
+	libGo := sites != nil && sites.GoStmt > 0
+	var soloSteps uint64
+	underSched := func(ts *taskState, ops []Op) {
+		ss := sched.New(sched.Spec{Policy: "serial"}, prng.New(1), 0, nil)
+		ss.MayBlock = true
+		ss.Seen = x.seen
+		x.Sch = ss
+		x.schedIDs = []int{ts.id}
+		secp.VerifSetYieldHook(ss.Hook)
+		secp.VerifSetSpawnHook(ss.Spawn)
+		ss.Run([]func(){func() { x.runTask(ts, ops) }})
+		secp.VerifSetYieldHook(nil)
+		secp.VerifSetSpawnHook(nil)
+		x.Sch = nil
+		soloSteps += ss.Step
+		if ss.Cut > 0 {
+			x.poisoned = true
+		}
+		if ss.Deadlock != nil {
+			x.poisoned = true
+			if run.Prop == "C16" {
+				x.fail(ts, ts.curOp, ts.curOpP, "M-live", "deadlock", "a call made by a single caller never returns: "+ss.Deadlock.Error())
+			} else {
+				x.bad(ss.Deadlock.Error())
+			}
+		} else if ss.Aborted != nil {
+			x.bad(ss.Aborted.Error())
+		} else if ss.TaskPanic != nil {
+			x.bad(fmt.Sprintf("task panicked outside an op: %v", ss.TaskPanic))
+		}
+	}
+	seq := func(ts *taskState, ops []Op) {
+		if libGo {
+			underSched(ts, ops)
+		} else {
+			x.runTask(ts, ops)
+		}
+	}
+
 	// ---- setup phase (sequential)
 	x.phase = "setup"
 	setup := x.newTask(-1, run.NE, run.NS)
@@ -1630,7 +1674,7 @@ func Exec(run *Run, ar *arena.Arena, va *arena.Vars, g *Globals, sites *SiteTabl
 		if x.Ar != nil {
 			x.Ar.Protect()
 		}
-		x.runTask(setup, run.Setup)
+		seq(setup, run.Setup)
 		if x.Ar != nil {
 			x.Ar.Unprotect()
 		}
@@ -1716,7 +1760,7 @@ func Exec(run *Run, ar *arena.Arena, va *arena.Vars, g *Globals, sites *SiteTabl
 			// reference execution without caller writes, then the real one
 			x.dry = true
 			ref := x.newTask(0, run.NE, run.NS)
-			x.runTask(ref, run.Tasks[0])
+			seq(ref, run.Tasks[0])
 			x.dry = false
 			if x.abort {
 				return x.finish()
@@ -1734,7 +1778,7 @@ func Exec(run *Run, ar *arena.Arena, va *arena.Vars, g *Globals, sites *SiteTabl
 			ts = x.newTask(0, run.NE, run.NS)
 		}
 		if len(run.Tasks) == 1 {
-			x.runTask(ts, run.Tasks[0])
+			seq(ts, run.Tasks[0])
 		}
 		if x.base != nil && !x.abort && len(ts.digest) != len(x.base) {
 			x.fail(ts, len(run.Tasks[0])-1, nil, "M-scribble", "length", "the execution with caller writes made a different number of observations than the reference execution")
@@ -1750,7 +1794,7 @@ func Exec(run *Run, ar *arena.Arena, va *arena.Vars, g *Globals, sites *SiteTabl
 			x.all = nil
 			newDev()
 			ref2 := x.newTask(0, run.NE, run.NS)
-			x.runTask(ref2, run.Tasks[0])
+			seq(ref2, run.Tasks[0])
 			x.dry = false
 			same := x.viol == nil && len(ref2.digest) == len(baseCopy)
 			for k := 0; same && k < len(baseCopy); k++ {
@@ -1771,8 +1815,6 @@ func Exec(run *Run, ar *arena.Arena, va *arena.Vars, g *Globals, sites *SiteTabl
 	// (serial policy: a goroutine the library starts runs when its parent blocks
 	// or finishes), so that "alone" is itself a deterministic execution.
 	x.phase = "solo"
-	libGo := sites != nil && sites.GoStmt > 0
-	var soloSteps uint64
 	alone := func(ts *taskState, ops []Op) {
 		if !libGo {
 			secp.VerifSetYieldHook(func(site uint32) {
@@ -1785,30 +1827,7 @@ func Exec(run *Run, ar *arena.Arena, va *arena.Vars, g *Globals, sites *SiteTabl
 			secp.VerifSetYieldHook(nil)
 			return
 		}
-		ss := sched.New(sched.Spec{Policy: "serial"}, prng.New(1), 0, nil)
-		ss.MayBlock = true
-		ss.Seen = x.seen
-		x.Sch = ss
-		x.schedIDs = []int{ts.id}
-		secp.VerifSetYieldHook(ss.Hook)
-		secp.VerifSetSpawnHook(ss.Spawn)
-		ss.Run([]func(){func() { x.runTask(ts, ops) }})
-		secp.VerifSetYieldHook(nil)
-		secp.VerifSetSpawnHook(nil)
-		x.Sch = nil
-		soloSteps += ss.Step
-		if ss.Deadlock != nil {
-			x.poisoned = true
-			if run.Prop == "C16" {
-				x.fail(ts, ts.curOp, ts.curOpP, "M-live", "deadlock", "a call made by a single caller never returns: "+ss.Deadlock.Error())
-			} else {
-				x.bad(ss.Deadlock.Error())
-			}
-		} else if ss.Aborted != nil {
-			x.bad(ss.Aborted.Error())
-		} else if ss.TaskPanic != nil {
-			x.bad(fmt.Sprintf("task panicked outside an op: %v", ss.TaskPanic))
-		}
+		underSched(ts, ops)
 	}
 	x.solo = make([][]uint64, len(run.Tasks))
 	hasRandom := make([]bool, len(run.Tasks))
@@ -1904,6 +1923,17 @@ func Exec(run *Run, ar *arena.Arena, va *arena.Vars, g *Globals, sites *SiteTabl
 	}
 	if s.BlockedN > 0 {
 		x.St.Probes["task_blocked_inside_library"] += s.BlockedN
+	}
+	if s.Cut > 0 {
+		x.poisoned = true
+	}
+	if s.Adopted > 0 {
+		x.St.Probes["library_goroutines_adopted_at_a_yield"] += uint64(s.Adopted)
+	}
+	if s.Leftover > 0 {
+		// goroutines the library started are still waiting (a worker pool); the
+		// next scheduled phase inherits them
+		x.St.Probes["library_goroutines_left_waiting"] += uint64(s.Leftover)
 	}
 	if s.TaskPanic != nil && x.incon == nil {
 		x.incon = Inconclusive{fmt.Sprintf("task panicked outside an op: %v", s.TaskPanic)}
